@@ -222,6 +222,10 @@ pub struct Obs {
     init_calls: u32,
     init_saw_marker: Option<u32>,
     init_write_present: bool,
+    /// a key of the supplied storage that the init function overwrites and then removes is gone
+    init_removed_gone: bool,
+    /// the last of many writes of the init function to a few keys is what the App's storage holds
+    init_bulk_last_wins: bool,
     block_is_default: bool,
 }
 
@@ -287,10 +291,20 @@ where
             storage.remove(b"marker");
             storage.set(b"marker", &m);
         }
+        // ... overwrite and then remove another one, and write a handful of keys a few hundred times
+        if storage.get(b"old").is_some() {
+            storage.set(b"old", b"rewritten");
+            storage.remove(b"old");
+        }
+        for i in 0..300u32 {
+            storage.set(format!("bulk{}", i % 7).as_bytes(), i.to_string().as_bytes());
+        }
     });
     o.init_calls = calls.get();
     o.init_saw_marker = saw.get();
     o.init_write_present = app.storage().get(b"init") == Some(b"1".to_vec());
+    o.init_removed_gone = app.storage().get(b"old").is_none();
+    o.init_bulk_last_wins = (0..7u32).all(|k| app.storage().get(format!("bulk{}", k).as_bytes()) == Some((293 + (k + 7 - 293 % 7) % 7).to_string().into_bytes()));
 
     // fields
     o.field.insert("bank".into(), app.router().bank.probe());
@@ -409,6 +423,7 @@ macro_rules! go_impl {
                 Slot::Storage => {
                     let mut st = MockStorage::new();
                     st.set(b"marker", id.to_string().as_bytes());
+                    st.set(b"old", b"supplied");
                     go(b.with_storage(st), rest)
                 }
                 Slot::Block => go(b.with_block(marked_block(id)), rest),
@@ -464,6 +479,8 @@ fn check_builder(steps: &[(Slot, u32)], cx: &mut Cx) -> Result<(), Failure> {
         Err(p) => fail!("C20:builder-panics", "building with steps {:?} panicked: {}", steps, p),
     };
     ensure!(obs.init_calls == 1, "C20:init-not-once", "init function ran {} times for steps {:?}", obs.init_calls, steps);
+    ensure!(obs.init_removed_gone, "C20:init-write-lost", "a key of the supplied storage that the init function overwrote and then removed is still in the App's storage (steps {:?})", steps);
+    ensure!(obs.init_bulk_last_wins, "C20:init-write-lost", "after 300 writes of the init function to seven keys the App's storage does not hold the last value of each (steps {:?})", steps);
     ensure!(obs.init_write_present, "C20:init-write-lost", "the key written by the init function is not in the App's storage (steps {:?})", steps);
     ensure!(
         obs.init_saw_marker == want.get(&Slot::Storage).copied(),
